@@ -96,6 +96,7 @@ func c02Gen(r *core.Rand, i int) c02case {
 		"{{ mixed | compact | size }}{{ mixed | size }}{{ arr | reverse | first }}{{ arr | first }}{{ arr | uniq | size }}{{ arr | size }}",
 		// maps with interface keys: string keys, then non-string keys of several kinds, numerically equal keys of different types
 		"{% for kv in anys %}{{ kv[0] }}={{ kv[1] }};{% endfor %}|{% for kv in anyn %}{{ kv[0] }}={{ kv[1] }};{% endfor %}|{% for kv in anye %}{{ kv[1] }};{% endfor %}",
+		"{% for kv in anyt %}{{ kv[1] }};{% endfor %}|{{ anyt | join: ',' }}|{{ anyt | first | last }}|{% tablerow kv in anyt cols: 3 %}{{ kv[1] }}{% endtablerow %}",
 		// properties that are methods or tagged fields; each template touches ONE of the struct bindings, so that which
 		// representation a process sees first depends on the order of the cases
 		"{{ msv.Title }}|{{ msv.Upper }}|{{ msv.Slug }}", "{{ msp.Title }}|{{ msp.Upper }}|{{ msp.Slug }}", "{{ ta.label }}:{{ ta.cost }}:{{ ta.Sku }}", "{{ tb.label }}:{{ tb.cost }}:{{ tb.Sku }}",
@@ -170,6 +171,13 @@ func (cs c02case) bind(r *core.Rand) map[string]any {
 		bigkeys[int64(1)<<60+int64(j)] = fmt.Sprintf("v%d", j)
 	}
 	b["anys"], b["anyn"], b["anye"], b["bigkeys"] = anys, anyn, anye, bigkeys
+	// distinct keys that are equal in value and differ only in Go type
+	anyt := map[any]any{}
+	tk := []struct{ k, v any }{{"a", 1}, {gen.NTitle("a"), 2}, {1, "int"}, {gen.NInt(1), "nint"}, {int64(1), "i64"}, {true, "t"}, {gen.NBool(true), "nt"}, {2.5, "f"}, {gen.NFloat(2.5), "nf"}}
+	for _, j := range r.Perm(len(tk)) {
+		anyt[tk[j].k] = tk[j].v
+	}
+	b["anyt"] = anyt
 	// typed containers of pointers: freshly allocated on every rebuild, so an address in the output shows at once
 	pi := func(i int) *int { return &i }
 	ps := func(s string) *string { return &s }
